@@ -101,7 +101,7 @@ fn parse_levels(s: &str) -> Vec<Level> {
             let mut i = 0;
             while i < cs.len() {
                 match cs[i] {
-                    'd' | 'b' | 'n' | 'e' => lv.edits.push(cs[i]),
+                    'd' | 'b' | 'n' | 'e' | 'r' => lv.edits.push(cs[i]),
                     'f' => {
                         lv.maxfail = cs[i + 1].to_digit(10).unwrap() as usize;
                         i += 1;
@@ -221,10 +221,27 @@ fn main() {
                 let (a, b) = e.split_once('-').unwrap();
                 g.edges.insert((format!("N{}", a), format!("N{}", b)));
             }
-            for j in names(n) {
+            // optional explicit ids (multi-output jobs: a:::b)
+            let ids: Vec<String> = get("ids", "").split(',').filter(|x| !x.is_empty()).map(|x| x.to_string()).collect();
+            if !ids.is_empty() {
+                assert_eq!(ids.len(), n);
+                let nm = names(n);
+                let mut g2 = Graph { kind: BTreeMap::new(), edges: BTreeSet::new(), needs: BTreeMap::new(), uses: BTreeMap::new() };
+                let map: BTreeMap<String, String> = nm.iter().cloned().zip(ids.iter().cloned()).collect();
+                for (j, k) in g.kind.iter() {
+                    g2.kind.insert(map[j].clone(), *k);
+                }
+                for (a, b) in g.edges.iter() {
+                    g2.edges.insert((map[a].clone(), map[b].clone()));
+                }
+                g = g2;
+            }
+            for j in g.kind.keys().cloned().collect::<Vec<_>>() {
                 let mut s = BTreeSet::new();
                 for u in g.ups(&j) {
-                    s.insert(u);
+                    for m in names_of(&u) {
+                        s.insert(m);
+                    }
                 }
                 g.uses.insert(j, s);
             }
@@ -247,7 +264,7 @@ fn main() {
         let cmps = cmps.clone();
         let next = next.clone();
         let tag = tag.clone();
-        handles.push(std::thread::spawn(move || {
+        handles.push(std::thread::Builder::new().stack_size(1 << 30).spawn(move || {
             std::panic::set_hook(Box::new(|_| {}));
             let mut wr = Writer::new(&out, &format!("{}-t{:02}", tag, t), shard_lines);
             let mut stats = Stats::default();
@@ -266,7 +283,7 @@ fn main() {
             }
             wr.close();
             results.lock().unwrap().push((stats, wr.files.clone(), wr.total_lines));
-        }));
+        }).unwrap());
     }
     for h in handles {
         h.join().unwrap();
